@@ -236,6 +236,20 @@ class Checker:
                 S = self.um.conv_scale(u, v, vals[i])
                 if not core.close(float(g), w, S, 1e-12):
                     ctx.fail("get_values_differs_from_scalar:%s" % k, dict(case, kind=k, i=i), "Array(%s).GetValues(%r)[%d] = %r, Scalar(%r,%r).GetValue(%r) = %r" % (k, v, i, g, vals[i], u, v, w))
+            # the caller edits the container it received; the Array's next answers are still the converted amounts
+            if u != v and len(got) and k != "tuple":
+                first = A.GetValues(v)
+                try:
+                    first[0] = 12345.678
+                except TypeError:
+                    first = None
+                if first is not None:
+                    for what, again in (("GetValues", list(A.GetValues(v))), ("CreateCopy(unit)", list(A.CreateCopy(unit=v).GetValues()))):
+                        ctx.ev()
+                        if len(again) != len(ref) or not core.close(float(again[0]), ref[0], self.um.conv_scale(u, v, vals[0]), 1e-12):
+                            ctx.fail("conversion_result_shared_with_caller:%s:%s" % (what, k), dict(case, kind=k), "Array(%s).%s(%r) after the caller edited the container returned by an earlier GetValues(%r): element 0 is %r, expected %r" % (k, what, v, v, again[0], ref[0]))
+                    if list(A.GetValues()) != [float(t) for t in vals] and k != "ndarray":
+                        ctx.fail("conversion_edit_reached_the_array:%s" % k, dict(case, kind=k), "editing the converted container changed the Array's own values")
             ctx.cls("get_values_%s" % k)
         if u != v and len(vals) >= 2:
             ctx.nontrivial(("get_values", u, v, len(vals)))
